@@ -121,6 +121,7 @@ type Explorer struct {
 	inReplace   map[*ssa.Function]bool
 	SQLModel    bool
 	sqlRows     map[*value]tuple
+	sqlCursors  map[*value]*sqlCursor
 	pending     []value
 	inStep      bool
 	IntMode     bool
@@ -611,6 +612,7 @@ func (e *Explorer) resetPath(p []int) {
 	e.inReplace = nil
 	e.SQLModel = false
 	e.sqlRows = nil
+	e.sqlCursors = nil
 	e.pending = nil
 	e.inStep = false
 	e.IntMode = false
